@@ -19,6 +19,8 @@ from framing_drv import pyframe  # noqa: E402
 
 
 _MISSING = object()
+POISONED = []      # a client call hung in real time: the process still runs that call in a stray thread
+HANG_S = 30
 
 
 class Watchdog(Exception):
@@ -446,7 +448,27 @@ class Transaction:
         self.clock.ops = 0
         t_start = self.clock.t
         try:
-            r = self.c.execute(req)
+            if POISONED:
+                raise Watchdog("skipped after a hang")
+            box = {}
+
+            def call():
+                try:
+                    box["r"] = self.c.execute(req)
+                except BaseException as ex:       # noqa: BLE001 - handed to the caller's thread below
+                    box["ex"] = ex
+            import threading
+            th = threading.Thread(target=call, daemon=True)
+            th.start()
+            th.join(HANG_S)
+            if th.is_alive():
+                # no virtual-time budget was exhausted (that raises Watchdog inside the call): the call spins or blocks without
+                # consulting the clock.  It is recorded as a hang; nothing more is run in this process.
+                POISONED.append(self.name)
+                raise Watchdog("no return within %d s of real time" % HANG_S)
+            if "ex" in box:
+                raise box["ex"]
+            r = box["r"]
             if r is None:
                 res["kind"] = "none"
             elif isinstance(r, Exception):
